@@ -1,7 +1,8 @@
 (** Correspondence glue for unit `uframes`: QUICFrames.build, QUICRandomFrames.buildInternal,
     QUICMultiDatagramFrames.BuildForDatagram replayed bit-exactly under the logged oracles. *)
 From Coq Require Import List ZArith Bool String.
-From V Require Import Lib.Hex UFrames.Model.
+From V Require Import Lib.Hex.
+From V Require Export UFrames.Model.
 Import ListNotations.
 Open Scope Z_scope.
 
